@@ -82,6 +82,18 @@ func (p *FunctionBuilder) CreateFunction(m *bmodel.MethodEntry) (*gmodel.Functio
 		return nil, logger.Errorf("%v: dst type should be a struct but %v", p.fset.Position(dst.Pos()), dst.Type().Underlying().String())
 	}
 
+	if m.Opts.Receiver == "" {
+		// A function shares the package block with every other declaration of the package.
+		name := m.Method.Name()
+		if name == "init" {
+			return nil, logger.Errorf("%v: a function cannot be named init", p.fset.Position(m.Method.Pos()))
+		}
+		if obj := p.pkg.Types.Scope().Lookup(name); obj != nil {
+			return nil, logger.Errorf("%v: cannot generate function %v, the package already declares it at %v",
+				p.fset.Position(m.Method.Pos()), name, p.fset.Position(obj.Pos()))
+		}
+	}
+
 	srcDefName := "src"
 	dstDefName := "dst"
 	if m.Opts.Reverse {
